@@ -179,6 +179,16 @@ pub fn run_faulted_with_prover<O: Op>(op: &O, x: &[BigUint], n_public: usize, pl
 }
 
 fn run_inner_p<O: Op>(op: &O, x: &[BigUint], inst: Inst, plan: HashMap<usize, Fault<F>>) -> (Run, Option<MockProver<F>>) {
+    run_inner_pv(op, x, inst, plan, true)
+}
+
+/// Faulted run without the final full `verify()` (the caller inspects the prover itself);
+/// the outcome is `Accept` as a placeholder when synthesis succeeds.
+pub fn run_faulted_unverified<O: Op>(op: &O, x: &[BigUint], n_public: usize, plan: HashMap<usize, Fault<F>>) -> (Run, Option<MockProver<F>>) {
+    run_inner_pv(op, x, Inst::ReadBack(n_public), plan, false)
+}
+
+fn run_inner_pv<O: Op>(op: &O, x: &[BigUint], inst: Inst, plan: HashMap<usize, Fault<F>>, verify: bool) -> (Run, Option<MockProver<F>>) {
     let k = match op_k(op, x) {
         Ok(k) => k,
         Err(e) => return (Run { outcome: Outcome::Panic(format!("min_k: {e}")), log: vec![], public: vec![] }, None),
@@ -233,6 +243,9 @@ fn run_inner_p<O: Op>(op: &O, x: &[BigUint], inst: Inst, plan: HashMap<usize, Fa
                 inst_col[r] = InstanceValue::Assigned(*v);
             }
         }
+    }
+    if !verify {
+        return (Run { outcome: Outcome::Accept, log: report.log, public }, Some(prover));
     }
     let verdict = vpcore::catch(|| prover.verify());
     let outcome = match verdict {
@@ -477,4 +490,157 @@ pub fn vk_bytes<O: Op>(op: &O, x: Option<&[BigUint]>, k: u32) -> Result<Vec<u8>,
         keygen_vk_with_k::<F, KZGCommitmentScheme<midnight_curves::Bls12>, _>(&params, &c, k).map(|vk| vk.to_bytes(SerdeFormat::RawBytes))
     })?
     .map_err(|e| format!("{e:?}"))
+}
+
+
+// ---------------------------------------------------------------------------
+// S4: class-representative fault sweep with local detection
+//
+// Wide circuits (hash compression functions, scalar multiplications) repeat a few region
+// shapes hundreds of times; sampled single faults almost never hit a given position of a
+// given shape. Here the assignments of the honest run are grouped into structural classes
+// (region shape, column, offset in the region); one representative per class is faulted,
+// many classes per synthesis, far enough apart not to share a gate. After the run each fault
+// must be detected *locally*: a gate or lookup violated within `WINDOW` rows of the cell, or
+// a copy-constraint failure at the cell. Faults without a local detection are confirmed one
+// by one with the ordinary S2 criterion (full verification, read-back, `Op::judge`).
+
+#[derive(Clone, Debug, Default)]
+pub struct SweepStats {
+    pub classes: usize,
+    pub swept: usize,
+    pub runs: usize,
+    pub detected_locally: usize,
+    pub confirmed: usize,
+    pub confirmed_rejected: usize,
+    pub confirmed_harmless: usize,
+}
+
+const WINDOW: usize = 12;
+
+pub fn check_class_sweep<O: Op>(op: &O, x: &[BigUint], seed: u64, max_classes: usize, per_run: usize) -> Result<(SweepStats, Verdict), Failure> {
+    use midnight_proofs::dev::{FailureLocation, VerifyFailure};
+    use std::collections::{BTreeMap, HashSet};
+    let name = op.name();
+    let mut st = SweepStats::default();
+    let Some(inst) = op.reference(x) else {
+        return Ok((st, Verdict::trivial("out-of-domain-input-skipped")));
+    };
+    let honest = run_faulted(op, x, inst.len(), HashMap::new());
+    if !honest.outcome.accepted() || honest.public != inst {
+        return Err(Failure::new(format!("{name}:readback-mismatch"), format!("honest run with read-back: outcome {:?}, public {:?} vs reference {:?}", honest.outcome, honest.public, inst)));
+    }
+    // regions: records sharing (abs_row - offset); consecutive in the log
+    let mut regions: BTreeMap<usize, Vec<&AssignRecord>> = BTreeMap::new();
+    for r in &honest.log {
+        if let Some(a) = r.abs_row {
+            if a >= r.offset {
+                regions.entry(a - r.offset).or_default().push(r);
+            }
+        }
+    }
+    // classes: (shape of the region, column, offset) -> occurrences
+    let mut classes: BTreeMap<(u64, usize, usize), Vec<&AssignRecord>> = BTreeMap::new();
+    for recs in regions.values() {
+        let mut shape: Vec<(usize, usize)> = recs.iter().map(|r| (r.column, r.offset)).collect();
+        shape.sort();
+        shape.dedup();
+        let h = vpcore::digest(&format!("{shape:?}"));
+        for r in recs {
+            classes.entry((h, r.column, r.offset)).or_default().push(r);
+        }
+    }
+    st.classes = classes.len();
+    let mut rng = SplitMix(seed);
+    // one representative per class (a pseudo-random occurrence), a rotating subset of the classes
+    let mut reps: Vec<&AssignRecord> = classes.values().map(|occ| occ[rng.below(occ.len() as u64) as usize]).collect();
+    for i in (1..reps.len()).rev() {
+        reps.swap(i, rng.below(i as u64 + 1) as usize);
+    }
+    reps.truncate(max_classes);
+    st.swept = reps.len();
+    // pack into runs: rows far apart, distinct (column, offset) within a run
+    let mut runs: Vec<Vec<&AssignRecord>> = vec![];
+    for r in reps {
+        let row = r.abs_row.unwrap();
+        let slot = runs.iter_mut().find(|run| run.len() < per_run && run.iter().all(|o| o.abs_row.unwrap().abs_diff(row) > 2 * WINDOW && (o.column, o.offset) != (r.column, r.offset)));
+        match slot {
+            Some(run) => run.push(r),
+            None => runs.push(vec![r]),
+        }
+    }
+    let mut suspicious: Vec<&AssignRecord> = vec![];
+    for run in &runs {
+        let plan: HashMap<usize, Fault<F>> = run.iter().map(|r| (r.index, Fault::Add(F::from(1)))).collect();
+        let (res, prover) = run_faulted_unverified(op, x, inst.len(), plan);
+        st.runs += 1;
+        let Some(prover) = prover else {
+            // synthesis aborted under these faults (witness helpers may refuse inconsistent
+            // values): fall back to one-by-one confirmation
+            suspicious.extend(run.iter().copied());
+            continue;
+        };
+        let applied: HashSet<usize> = res.log.iter().filter(|l| l.faulted).map(|l| l.index).collect();
+        let usable = prover.usable_rows().clone();
+        for r in run {
+            if !applied.contains(&r.index) {
+                continue;
+            }
+            let row = r.abs_row.unwrap();
+            let lo = row.saturating_sub(WINDOW).max(usable.start);
+            let hi = (row + WINDOW + 1).min(usable.end);
+            let errs = match vpcore::catch(|| prover.verify_at_rows(lo..hi, lo..hi)) {
+                Ok(Ok(())) => vec![],
+                Ok(Err(e)) => e,
+                // MockProver panics while formatting some violated gates: that is a detection
+                Err(_) => {
+                    st.detected_locally += 1;
+                    continue;
+                }
+            };
+            let local = errs.iter().any(|e| match e {
+                VerifyFailure::ConstraintNotSatisfied { .. } | VerifyFailure::Lookup { .. } | VerifyFailure::ConstraintPoisoned { .. } => true,
+                VerifyFailure::Permutation { column, location } => {
+                    column.index() == r.column
+                        && match location {
+                            FailureLocation::InRegion { offset, .. } => *offset == r.offset,
+                            FailureLocation::OutsideRegion { row: rr } => *rr == row,
+                        }
+                }
+                _ => false,
+            });
+            if local {
+                st.detected_locally += 1;
+            } else {
+                suspicious.push(r);
+            }
+        }
+    }
+    // confirmation: the ordinary single-fault criterion
+    for r in suspicious {
+        st.confirmed += 1;
+        let plan = HashMap::from([(r.index, Fault::Add(F::from(1)))]);
+        let res = run_faulted(op, x, inst.len(), plan);
+        match &res.outcome {
+            Outcome::Accept => {
+                if (res.public == inst && !res.log.iter().any(|l| l.faulted)) || op.judge(&res.public) {
+                    st.confirmed_harmless += 1;
+                } else {
+                    let cls = op.classify(&res.public).unwrap_or_else(|| "unclassified".into());
+                    return Err(Failure::new(
+                        format!("{name}:unsound:S2:{cls}"),
+                        format!(
+                            "class sweep: MockProver accepts assignment #{} (column {}, region offset {}, row {:?}) changed by +1, exposing public values that contradict the reference: inputs x={x:?}; exposed {:?}; honest instance {inst:?}",
+                            r.index, r.column, r.offset, r.abs_row, res.public
+                        ),
+                    ));
+                }
+            }
+            _ => st.confirmed_rejected += 1,
+        }
+    }
+    let v = Verdict::of(st.detected_locally + st.confirmed_rejected > 0, "class-sweep")
+        .with(format!("classes:{}", match st.classes { 0..=99 => "<100", 100..=999 => "100+", _ => "1000+" }))
+        .with(format!("coverage:{}%", if st.classes == 0 { 100 } else { 100 * st.swept / st.classes / 10 * 10 }));
+    Ok((st, v))
 }
